@@ -86,11 +86,13 @@ func ensureCanary() error {
 	if canaryDir != "" {
 		return nil
 	}
-	d := filepath.Join(os.TempDir(), fmt.Sprintf("c11canary-%07d", os.Getpid()%10000000))
-	os.RemoveAll(d)
-	if err := os.MkdirAll(d, 0o755); err != nil {
-		return err
+	base := os.Getenv("VERIF_DIR")
+	if base == "" {
+		base = "/verif"
 	}
+	// a fixed location (inside the git-ignored build directory) shared by all worker
+	// processes: its name appears in generated templates, so it must not vary
+	d := filepath.Join(base, ".build", "canary")
 	for _, dir := range c11Dirs {
 		for _, sub := range []string{"", "tplroot/"} {
 			if err := os.MkdirAll(filepath.Join(d, sub, dir), 0o755); err != nil {
@@ -98,7 +100,15 @@ func ensureCanary() error {
 			}
 			for i := 0; i < 9; i++ {
 				for _, n := range []string{fmt.Sprintf("t%d.tpl", i), fmt.Sprintf("t%d.txt", i)} {
-					if err := os.WriteFile(filepath.Join(d, sub, dir, n), []byte("CANARY"), 0o644); err != nil {
+					fn := filepath.Join(d, sub, dir, n)
+					if b, err := os.ReadFile(fn); err == nil && string(b) == "CANARY" {
+						continue
+					}
+					tmp := fmt.Sprintf("%s.%d", fn, os.Getpid())
+					if err := os.WriteFile(tmp, []byte("CANARY"), 0o644); err != nil {
+						return err
+					}
+					if err := os.Rename(tmp, fn); err != nil {
 						return err
 					}
 				}
@@ -112,12 +122,10 @@ func ensureCanary() error {
 	return nil
 }
 
-// CleanupCanary removes the canary directory (called by the worker at exit).
+// CleanupCanary leaves the (shared, tiny) canary directory in place; it only steps out of it.
 func CleanupCanary() {
 	if canaryDir != "" {
 		os.Chdir("/")
-		os.RemoveAll(canaryDir)
-		canaryDir = ""
 	}
 }
 
@@ -279,6 +287,19 @@ func c11Finish(tp *Tapes, sp *c11Spec) {
 		nrefs := g.Draw(4)
 		if i == 0 && nrefs == 0 {
 			nrefs = 1
+		}
+		if i == 0 && sp.Kind != "local" && sp.Kind != "localbase" && g.Draw(5) == 0 {
+			// an absolute path to a real file that no loader serves (the canary)
+			abs := c11Ref{Target: -1}
+			switch g.Draw(3) {
+			case 0:
+				abs.Type, abs.Name = "ssiraw", filepath.Join(canaryDir, "t1.txt") // must fail: not obtainable through the loaders
+			case 1:
+				abs.Type, abs.Name, abs.IfExists = "inc", filepath.Join(canaryDir, "a/t2.tpl"), true
+			default:
+				abs.Type, abs.Name, abs.IfExists = "lazy", filepath.Join(canaryDir, "c/t3.tpl"), true
+			}
+			f.Refs = append(f.Refs, abs)
 		}
 		for r := 0; r < nrefs; r++ {
 			ref := c11Ref{Target: -1}
